@@ -238,11 +238,16 @@ pub fn run_property(prop: &'static dyn Prop, tier: Tier, seed: u64, root: &Path)
                         if f.read_exact(&mut hdr).is_ok() {
                             let kind = u32::from_ne_bytes(hdr[4..8].try_into().unwrap());
                             let ms = u64::from_ne_bytes(hdr[24..32].try_into().unwrap());
-                            if kind != 0 && now_ms().saturating_sub(ms) > timeout_s * 1000 {
+                            let phase = u32::from_ne_bytes(hdr[36..40].try_into().unwrap());
+                            let limit_s = match (prop.timeout_exempt_phase(), prop.exempt_phase_timeout()) {
+                                (Some(p), Some(t)) if p == phase => t.min(timeout_s),
+                                _ => timeout_s,
+                            };
+                            if kind != 0 && now_ms().saturating_sub(ms) > limit_s * 1000 {
                                 let _ = child.kill();
                                 let _ = child.wait();
                                 if let Some(cur) = read_cur(&curp) {
-                                    incidents.push(incident_from(&cur, &names, "timeout", format!(">{timeout_s}s")));
+                                    incidents.push(incident_from(&cur, &names, "timeout", format!(">{limit_s}s")));
                                     restart_from = Some((cur.sec as usize, cur.k + 1));
                                 } else if let Some(cp) = last_checkpoint(&dir, sh.idx, sh.segment) {
                                     restart_from = Some(cp);
